@@ -52,6 +52,18 @@ theorem nativeOf_propagate (n : Node) : native (propagate n) = native n := by
     · rename_i kw _
       simp [native, nativeList_applyKwList kw cs, nativeVals_applyKwList kw cs]
 
+/-- `_propagate_implicit_values` keeps the keys, the order and the data of the children -/
+theorem children_propagate (n : Node) :
+    nativeList (propagate n).children = nativeList n.children ∧
+    nativeVals (propagate n).children = nativeVals n.children := by
+  cases n with
+  | leaf f k => exact ⟨rfl, rfl⟩
+  | comp f k cs =>
+    simp only [propagate]
+    split
+    · exact ⟨rfl, rfl⟩
+    · exact ⟨nativeList_applyKwList _ _, nativeVals_applyKwList _ _⟩
+
 mutual
 theorem native_setPrioAll : ∀ (p : Int) (n : Node), native (setPrioAll p n) = native n
   | p, .leaf f k => by simp only [setPrioAll]; exact native_leaf_flags _ _ _
